@@ -611,6 +611,7 @@ impl<'a> Lexer<'a> {
             'ł' => 'ɬ',
             'ñ' => 'ɲ',
             'φ' => 'ɸ',
+            '\u{035C}' => '\u{0361}', // the tie may be written below (`t͜s`); the base phones are spelt with the one above
             // 'S' => 'ʃ', Can't have any of these in rules as they will be parsed as groups
             // 'Z' => 'ʒ',
             // 'C' => 'ɕ',
